@@ -136,7 +136,7 @@ pub fn check_prog(p: &Prog, rep: &mut Report) {
     // visibility does not depend on the write options: the same program under a second option set (validation on,
     // other derives, another representation) must give the same table. Quick tier: every 4th program.
     let space_a = p.key.starts_with("A|");
-    if (rep.thorough() && (!space_a || hash64(&p.key) % 4 == 0)) || (!rep.thorough() && hash64(&p.key) % 4 == 0) {
+    if (rep.thorough() && (!space_a || hash64(&p.key) % 4 == 0)) || (!rep.thorough() && hash64(&p.key) % 6 == 0) {
         let alt = Config { validate: Validate::All, bytemuck_vertex: true, serde: true, repr: Repr::Nalgebra, encase: true, ..Config::default() };
         rep.evaluations += 1;
         match generate(&p.src, &alt) {
@@ -602,7 +602,7 @@ pub fn run(tier: &str) -> i32 {
     let n0 = progs.len();
     for i in 0..n0 {
         let space_a = progs[i].key.starts_with("A|");
-        if !((thorough && (!space_a || hash64(&progs[i].key) % 8 == 1)) || (!thorough && hash64(&progs[i].key) % 8 == 1)) {
+        if !((thorough && (!space_a || hash64(&progs[i].key) % 8 == 1)) || (!thorough && hash64(&progs[i].key) % 10 == 1)) {
             continue;
         }
         for how in ["reverse", "entries-first", "interleave"] {
